@@ -159,6 +159,9 @@ pub fn convolution_by_const_apply<R, A, BE>(
 
     let n: usize = res.n();
     assert_eq!(a.n(), n);
+    // The block kernels address the selected columns with raw offsets.
+    assert!(res_col < res.cols(), "res_col: {res_col} >= res.cols(): {}", res.cols());
+    assert!(a_col < a.cols(), "a_col: {a_col} >= a.cols(): {}", a.cols());
 
     let res_size: usize = res.size();
     let a_size: usize = a.size();
@@ -218,6 +221,10 @@ pub fn convolution_apply_dft<R, A, B, BE>(
     let n: usize = res.n();
     assert_eq!(a.n(), n);
     assert_eq!(b.n(), n);
+    // The block kernels address the selected columns with raw offsets.
+    assert!(res_col < res.cols(), "res_col: {res_col} >= res.cols(): {}", res.cols());
+    assert!(a_col < a.cols(), "a_col: {a_col} >= a.cols(): {}", a.cols());
+    assert!(b_col < b.cols(), "b_col: {b_col} >= b.cols(): {}", b.cols());
     let m: usize = n >> 1;
 
     let res_size: usize = res.size();
